@@ -1182,6 +1182,9 @@ class Evaluator:
         # s.encode('<codec>') is bytes(s, '<codec>')
         if f[0] == 'attr' and f[2] == 'encode' and len(args) == 1 and not kwargs and args[0][0] == 'const' and isinstance(args[0][1], str) and self.class_of(f[1]) is None:
             f, args = ('name', 'bytes'), [f[1], args[0]]
+        # b.decode('<codec>') is str(b, '<codec>')
+        if f[0] == 'attr' and f[2] == 'decode' and len(args) == 1 and not kwargs and args[0][0] == 'const' and isinstance(args[0][1], str) and self.class_of(f[1]) is None:
+            f, args = ('name', 'str'), [f[1], args[0]]
         self.record(n, fctx, f, args, kwargs)
         res = self.apply(f, args, kwargs, site, n, env, fctx)
         # mutation of a named receiver
